@@ -42,6 +42,9 @@ ShapesCrashPost == {Shp({"post"}, <<Blk(<<1>>, 1, 0, {"post"}), Blk(<<1>>, 1, 0,
                     Shp({"deferred"}, <<Blk(<<1>>, 1, 0, {"pre", "post", "deferred"}), Blk(<<1>>, 1, 0, {})>>, 0)}
 \* retries across a crash: what is durable of an action's attempts decides what the resuming process may do with it
 ShapesCrashRetry == {Shp({}, <<Blk(<<2>>, 1, 0, {})>>, 1), Shp({}, <<Blk(<<1, 1>>, 2, 1, {})>>, 2)}
+\* the PreChecks of a scope fail while the initial run of its ContChecks (they run side by side) is in progress: one crash
+ShapesCrashPreCont == {Shp({"pre", "cont"}, <<Blk(<<1>>, 1, 0, {})>>, 0), Shp({"pre", "cont", "deferred"}, <<Blk(<<1>>, 1, 0, {"deferred"})>>, 0),
+                       Shp({}, <<Blk(<<1>>, 1, 0, {"pre", "cont", "deferred"}), Blk(<<1>>, 1, 0, {})>>, 0)}
 \* liveness: every plan reaches "finished" under weak fairness, also across a crash, also with continuous checks
 ShapesLive == {Shp({"cont"}, <<Blk(<<1>>, 1, 0, {"pre", "cont"})>>, 0), Shp({}, <<Blk(<<1, 1>>, 2, 0, {"cont", "deferred"})>>, 0)}
 ShapesLiveCrash == {Shp({"pre", "deferred"}, <<Blk(<<1>>, 1, 0, {"post"})>>, 0), Shp({}, <<Blk(<<1, 1>>, 2, 1, {})>>, 0)}
